@@ -70,7 +70,9 @@ class RandomizeParallelStep(ParallelStep):
         target_size: int,
         generation: int,
     ) -> None:
-        self.weights = [random.randint(0, 1000) for _ in range(4)]
+        weights = [random.randint(0, 1000) for _ in range(4)]
+        # Four zero draws would leave no share to split the next generation by.
+        self.weights = weights if any(weights) else [1, 1, 1, 1]
 
 
 def best_of_population(population: Iterator[Individual], problem: Problem) -> Individual:
